@@ -7,7 +7,7 @@
    SSN/MID cursors and any entry limit ([rq_empty q0]).  The only hypothesis on a history is that
    the payload bytes pushed in total stay below 2^63 (the uint64 counter and its int conversion). *)
 From Coq Require Import ZArith Bool List.
-From Sctp Require Import Gen SnaProofs RQ RQProofs RPQ.
+From Sctp Require Import Gen SnaProofs RQ RQProofs RPQ E2E E2EProofs.
 Import ListNotations.
 Open Scope Z_scope.
 
@@ -136,20 +136,45 @@ Theorem c11_memory_bound_refuted_zero_length : forall n b,
 Proof. exact rq_zero_length_unbounded_thm. Qed.
 Print Assumptions c11_memory_bound_refuted_zero_length.
 
-(* D12: the full statement ("... minus the user bytes it currently holds for reassembly or unread
-   delivery ... whatever mixture of ... stream resets occurred") fails at the association level:
-   resetStreamsIfAny deletes the stream from the map that getMyReceiverWindowCredit sums over, while
-   the Stream object handed to the application keeps its unread messages.  In model terms: the credit
-   is computed from the counters of the streams still in the map (here: none), a reachable queue
-   holding 3 unread bytes is no longer among them, and the whole buffer is advertised.
-   Observed on the implementation by the monitor TestVerifRQWindow (key
-   c11-window-ignores-unread-bytes-of-reset-stream). *)
-Example c11_window_after_inbound_reset_refuted :
-  let q := rq_run (rq_new 7 0) [RqPush (mkRqChunk 1 7 0 0 0 53 false true true false [1; 2; 3])] in
-  let streams_in_map_after_reset : list rq := [] in
-  rq_reachable q /\ rq_held_bytes q = 3 /\ rq_is_readable q = true /\
-  rq_a_rwnd 4096 (map rq_nbytes streams_in_map_after_reset) = 4096.
-Proof.
-  cbv zeta. split; [|vm_compute; repeat split].
-  eexists (rq_new 7 0), _. split; [apply rq_new_empty|]. split; [|reflexivity]. vm_compute. reflexivity.
-Qed.
+(* Stream resets (D12, repaired in /repo by 243f816): resetStreamsIfAny removes the stream from the map but
+   remembers it in a.detachedStreams while its queue still holds unread bytes, and
+   getMyReceiverWindowCredit counts those.  [rq_credit buf mapq detq] is that function; [e2e_reset] is the
+   reset of one stream in the composed receiver state of E2E.v (bitmap + stream map + detached list),
+   [e2e_a_rwnd] the window a SACK advertises, [e2e_held] the payload bytes held by every stream object the
+   application was handed and that still has data. *)
+Theorem c11_window_counts_reset_streams : forall buf mapq detq,
+  0 <= buf < 4294967296 -> Forall rq_reachable mapq -> Forall rq_reachable detq ->
+  zsum (map rq_held_bytes mapq) + zsum (map rq_held_bytes detq) < 4294967296 ->
+  rq_credit buf mapq detq = Z.max 0 (buf - zsum (map rq_held_bytes mapq) - zsum (map rq_held_bytes detq)).
+Proof. exact rq_credit_formula_thm. Qed.
+Print Assumptions c11_window_counts_reset_streams.
+
+Theorem c11_reset_keeps_window : forall st sid,
+  0 <= e2e_buf st < 4294967296 -> e2e_queues_reachable st -> e2e_held st < 4294967296 ->
+  e2e_a_rwnd (e2e_reset st sid) = e2e_a_rwnd st /\ e2e_held (e2e_reset st sid) = e2e_held st /\
+  e2e_queues_reachable (e2e_reset st sid).
+Proof. exact e2e_reset_keeps_window. Qed.
+Print Assumptions c11_reset_keeps_window.
+
+Theorem c11_window_is_buffer_minus_all_held : forall st,
+  0 <= e2e_buf st < 4294967296 -> e2e_queues_reachable st -> e2e_held st < 4294967296 ->
+  e2e_a_rwnd st = Z.max 0 (e2e_buf st - e2e_held st).
+Proof. exact e2e_window_formula. Qed.
+Print Assumptions c11_window_is_buffer_minus_all_held.
+
+Theorem c11_window_full_when_all_drained : forall buf mapq detq,
+  0 <= buf < 4294967296 -> Forall rq_reachable mapq -> Forall rq_reachable detq ->
+  Forall (fun q => rq_all_chunks q = []) mapq -> Forall (fun q => rq_all_chunks q = []) detq ->
+  rq_credit buf mapq detq = buf.
+Proof. exact rq_credit_full_when_drained_thm. Qed.
+Print Assumptions c11_window_full_when_all_drained.
+
+(* the former D12 witness as a regression: an unread message, the peer resets the stream, the window still
+   shows its bytes; once the application has read it from the detached stream the whole buffer is advertised *)
+Example c11_window_after_inbound_reset :
+  let c := mkRqChunk 1 7 0 0 0 53 false true true false [1; 2; 3] in
+  let st1 := fst (e2e_recv_data (e2e_new 1 4096 0 false) c true) in
+  let st2 := e2e_reset st1 7 in
+  let st3 := fst (e2e_read_detached st2 0 64) in
+  e2e_a_rwnd st1 = 4093 /\ e2e_streams st2 = [] /\ e2e_a_rwnd st2 = 4093 /\ e2e_a_rwnd st3 = 4096.
+Proof. exact e2e_window_after_reset_example. Qed.
